@@ -300,6 +300,11 @@ func rcConfirmPairs(f *rcFacts) [][4]string { // impl, A, B, charset
 					partner = cs[0]
 				}
 			}
+			if partner == "Resume" && e != "Suspend" && e != "Resume" {
+				// a bare Resume on a running screen returns at once ("already engaged") and never reaches the accesses of engage
+				// that made it a partner; the op `Suspend` of the race binary runs Suspend;Resume cycles and does
+				partner = "Suspend"
+			}
 			if partner != "" {
 				out = append(out, [4]string{impl, e, partner, g})
 			}
